@@ -491,6 +491,9 @@ func (i *interpreter) equalsT(t types.Type, x, y value) *Term {
 		return tt.boolConst(xv == y.(string))
 	case structure:
 		ys := y.(structure)
+		if t != nil && i.reflectValueType != nil && types.Identical(t, i.reflectValueType) {
+			return tt.boolConst(i.reflectValueIdentical(xv, ys))
+		}
 		r := tt.boolConst(true)
 		var st *types.Struct
 		if t != nil {
